@@ -193,6 +193,10 @@ func runC18(t *testing.T, tier string) int {
 	for _, v := range sv {
 		sink.add(v)
 	}
+	_, fcov, fv := c18AllRequestFields()
+	for _, v := range fv {
+		sink.add(v)
+	}
 	if len(samples) == 0 {
 		samples = append(samples, "none")
 	}
@@ -207,6 +211,9 @@ func runC18(t *testing.T, tier string) int {
 		"match_inputs":                  mi,
 		"interceptor_call_pairs":        sn,
 		"explanation":                   "stateless DFS over all interleavings of the real faults.Set code at every lock acquisition, atomic operation and goroutine spawn (sync / sync/atomic routed through scheduler shims by an overlay rewrite), up to the stated preemption bound per scenario (-1 = unbounded); states = scheduling decisions taken, every execution runs the implementation itself",
+	}
+	for k, v := range fcov {
+		cov[k] = v
 	}
 	ev := report.Evidence{PropertyID: "C18", Tier: tier, Seed: report.Seed(), Level: "model_checking", Coverage: cov,
 		Assumptions: []string{"sequentially consistent atomics (the scheduler interleaves whole operations)", "unsynchronised accesses would need the separate -race pass, which is supplementary and not part of this verdict"}}
